@@ -144,7 +144,7 @@ static void setup(ldb_dbiter_t *it) {
   ASSUME(seq_wf());
   it->db = NULL; it->ucmp = &stub_ucmp; it->iter = &CUR_ITER[0]; it->sequence = S_;
   it->status = in_status; st0 = in_status;
-  for (i = 0; i < 16; i++) { KB[i] = nondet_u8(); VB[i] = nondet_u8(); }
+  for (i = 0; i < 9; i++) { KB[i] = nondet_u8(); VB[i] = nondet_u8(); }
   it->saved_key.data = KB; it->saved_key.alloc = 16; it->saved_key.size = (size_t)nondet_int();
   it->saved_value.data = VB; it->saved_value.alloc = 16; it->saved_value.size = (size_t)nondet_int();
   it->direction = in_dir ? LDB_REVERSE : LDB_FORWARD;
